@@ -20,9 +20,9 @@
 package lockstep
 
 import (
-	"io"
 	"context"
 	"errors"
+	"io"
 	"strconv"
 )
 
